@@ -11,7 +11,7 @@ ID = 'C20'
 RULE = ('Hypothesis lists of <=12 day/range entries (years 1900-2100, biased to month/year/leap '
         'boundaries and to a common anchor so entries overlap), rendered as YYYY/MM/DD, "A - B" or '
         '"A-B", plus unambiguous malformed mutations; a permuted+duplicated copy of the list is '
-        'expanded too. Non-trivial = (>=2 entries with an overlap or a duplicate) or a range crossing '
+        'expanded too, and the parsed window objects are expanded again as a list and one by one (they must be unchanged and give their own days). Non-trivial = (>=2 entries with an overlap or a duplicate) or a range crossing '
         'a month/year/leap-day boundary or a malformed entry; distinct by spec hash.')
 BUDGET = {'quick': 6400, 'thorough': 400000}
 FLOOR = {'quick': 800, 'thorough': 50000}
@@ -230,6 +230,24 @@ def run(spec):
             if _ts_to_ord(w.first_day) != e['a'] or _ts_to_ord(w.last_day) != b:
               viol.append(('C20:window-ends', {'entry': render(e), 'first': str(w.first_day), 'last': str(w.last_day)}))
               break
+        # the same window objects expanded again: whole list, then each window alone (the windows are the caller's objects;
+        # an expansion must neither change them nor answer differently the second time)
+        if not viol and len(wins) == len(entries):
+          first = utils.expand_time_windows(wins)
+          ends = [(_ts_to_ord(w.first_day), _ts_to_ord(w.last_day)) for w in wins]
+          want_ends = [(e['a'], e['b'] if e['b'] is not None else e['a']) for e in entries]
+          if ends != want_ends:
+            viol.append(('C20:window-objects-modified', {'strings': strings, 'ends': [[fmt(a), fmt(b)] for a, b in ends]}))
+          if set(_ts_to_ord(t) for t in first) != model:
+            viol.append(('C20:wrong-days', {'strings': strings, 'where': 'expansion of the window list'}))
+          for e, w in zip(entries, wins):
+            alone = utils.expand_time_windows([w])
+            b = e['b'] if e['b'] is not None else e['a']
+            if sorted(_ts_to_ord(t) for t in alone) != list(range(e['a'], b + 1)):
+              viol.append(('C20:wrong-days', {'entry': render(e), 'where': 'window expanded alone after the list was expanded',
+                                              'got': len(alone), 'want': b - e['a'] + 1}))
+              break
+          cls.append('windows-re-expanded')
       except Exception as e:  # pylint: disable=broad-except
         viol.append(('C20:stage1-raised', {'strings': strings, 'exc': '%s: %s' % (type(e).__name__, e)}))
       # metamorphic: order / duplication
